@@ -35,6 +35,7 @@ static void do_release(bool log) {
         vh_begin("Release");
         vh_int("off", off);
         vh_int("cap", cap);
+        vh_int("valid", aws_ring_buffer_is_valid(&ring));
         vh_end();
     }
 }
@@ -114,6 +115,7 @@ int main(int argc, char **argv) {
                 vh_int("cap", 0);
                 vh_int("len", 0);
             }
+            vh_int("valid", aws_ring_buffer_is_valid(&ring)); /* the library's own invariant predicate */
             vh_end();
         } else if (vh_is("REL")) {
             do_release(true);
